@@ -3,12 +3,12 @@
 //   * the files `RollingLogger::get_log_files` lists for one rolling log (current file + archives),
 //   * the files `misc_helpers::get_files` lists in the event directory,
 //   * the files `misc_helpers::search_files(dir, "^AuthorizationRules_.*\.json$")` lists (rule dumps).
-// `files` maps each such file to its length in bytes. `rm_failed` is a sticky flag: some
-// `remove_file` returned Err since the ghost value was created (the OS refused to delete; the bound
-// is stated for histories in which deletions succeed, DESIGN C19).
+// `files` maps each such file to its length in bytes. `io_failed` is a sticky flag: some `remove_file`, or the
+// directory listing that decides what to delete / whether to write, returned Err since the ghost value was created
+// (the bounds are stated for histories in which the OS performs these operations, DESIGN C19).
 pub tracked struct Dir {
     pub ghost files: Map<PathBuf, nat>,
-    pub ghost rm_failed: bool,
+    pub ghost io_failed: bool,
 }
 
 impl Dir {
@@ -118,3 +118,63 @@ pub proof fn lemma_prefix_removed(l: Seq<PathBuf>, d0: Dir, d: Dir, c: int)
 pub open spec fn created_if_absent(f: Map<PathBuf, nat>, p: PathBuf) -> Map<PathBuf, nat> {
     if f.contains_key(p) { f } else { f.insert(p, 0) }
 }
+
+// ---- rolling log: count invariant and size limit ------------------------------------------------------
+/// "the number of files kept per rolling log never exceeds its configured count": the invariant that every operation
+/// preserves. While the current file is absent (between archiving and re-opening) one slot is kept free for it.
+pub open spec fn log_inv(d: Dir, cur: PathBuf, max: int) -> bool {
+    d.count() <= max && (!d.files.contains_key(cur) ==> d.count() <= max - 1)
+}
+
+/// every file of the class is at most `b` bytes long
+pub open spec fn all_sizes_le(d: Dir, b: nat) -> bool {
+    forall|p: PathBuf| #[trigger] d.files.contains_key(p) ==> d.files[p] <= b
+}
+
+/// number of bytes of the UTF-8 encoding (`String::as_bytes().len()`); uninterpreted, only its being a number is used
+pub uninterp spec fn utf8_len(s: Seq<char>) -> nat;
+
+/// bytes `write_many` hands to the writer: every message plus its newline
+pub open spec fn total_bytes(ms: Seq<String>) -> nat
+    decreases ms.len()
+{
+    if ms.len() == 0 { 0 } else { total_bytes(ms.drop_last()) + utf8_len(ms.last()@) + 1 }
+}
+
+pub proof fn lemma_total_step(ms: Seq<String>, i: int)
+    requires 0 <= i < ms.len(),
+    ensures total_bytes(ms.take(i + 1)) == total_bytes(ms.take(i)) + utf8_len(ms[i]@) + 1,
+{
+    assert(ms.take(i + 1).drop_last() =~= ms.take(i));
+}
+
+/// a writer on file `p` was handed `k` bytes: only `p` may have grown, by at most `k`; no file appeared or vanished
+pub open spec fn appended_at_most(o: Dir, n: Dir, p: PathBuf, k: nat) -> bool {
+    &&& n.files.dom() == o.files.dom()
+    &&& n.io_failed == o.io_failed
+    &&& forall|q: PathBuf| q != p && #[trigger] n.files.contains_key(q) ==> n.files[q] == o.files[q]
+    &&& n.files.contains_key(p) ==> n.files[p] <= o.files[p] + k
+}
+
+/// length `std::fs::Metadata::len` reports
+pub uninterp spec fn meta_len(m: std::fs::Metadata) -> u64;
+
+pub open spec fn renamed(o: Dir, from: PathBuf, to: PathBuf) -> Dir {
+    Dir { files: o.files.remove(from).insert(to, o.files[from]), io_failed: o.io_failed }
+}
+
+/// archive_file's effect: the current file got its archive name, then oldest files were removed first
+pub open spec fn archived_then_removed_oldest(o: Dir, n: Dir, cur: PathBuf) -> bool {
+    exists|to: PathBuf| to != cur && o.files.contains_key(cur) && #[trigger] removed_oldest_first(renamed(o, cur, to), n)
+}
+
+pub proof fn lemma_rename(o: Dir, n: Dir, from: PathBuf, to: PathBuf)
+    requires o.wf(), o.files.contains_key(from), n.files == renamed(o, from, to).files,
+    ensures n.wf(), n.count() <= o.count(), n.count() >= o.count() - 1,
+            forall|b: nat| #[trigger] all_sizes_le(o, b) ==> all_sizes_le(n, b),
+{
+    assert(n.files.dom() =~= o.files.dom().remove(from).insert(to));
+}
+
+/// the file an open writer appends to (fixed when `open_file` creates the writer)
+pub uninterp spec fn wpath(w: LineWriter<File>) -> PathBuf;
